@@ -386,6 +386,111 @@ MANIFEST["C36"] = dict(
 
 
 # --------------------------------------------------------------------------------------------
+# C40  GPSd SOCK samples
+# --------------------------------------------------------------------------------------------
+SOCK_TEST = "daemon::sock_source::verif_hook::verif_sock"
+SIG_F10 = "SockSample:non-finite-offset-not-rejected"
+SIG_OVERSIZE = "SockSample:oversized-datagram-accepted"
+NONFINITE = ("nan", "pinf", "ninf")
+
+
+def sock_sig(a):
+    c = a["c"]
+    return "%s[size=%s,magic=%s,pulse=%s,off=%s,leap=%s]" % (a["path"], c["size"], c["magic"], c["pulse"], c["off"], c["leap"])
+
+
+def run_c40(out, tier, seed):
+    out.coverage["rule"] = ("every datagram class (size x magic x pulse x offset class x leap, 3240 classes) is concretised into bytes and put "
+                            "through deserialize_sample and through the unix socket of a real SockSourceTask with a recording controller; "
+                            "verdict compared with the intended decoder of SockSample.tla")
+    out.assumptions += ["code observed as compiled for tests (debug assertions on: a non-finite offset panics in NtpDuration::from_seconds; "
+                        "in release builds NaN becomes offset 0 and infinities saturate)",
+                        "one representative value per class"]
+    # (M) TLC exhibits the counterexamples on the decoder as coded
+    ce = {}
+    for name in ("NonFinite", "Oversize"):
+        res = vf.run_tlc("MC_SockSample", "CE_SockSample_%s.cfg" % name, workers=1, timeout=600, tags=(), coverage=False)
+        if "C40_Holds" not in res.violated:
+            raise vf.ToolError("the as-coded sample decoder no longer violates C40 (%s): transcription changed?" % name)
+        tr = tlc_trace_json(res)
+        if len(tr) < 2:
+            raise vf.ToolError("cannot read TLC's counterexample (%s)" % name)
+        ce[name] = tr[-1]
+        out.add("design_level_counterexamples_found_by_tlc", 1)
+    if ce["NonFinite"]["c"]["off"] not in NONFINITE or ce["Oversize"]["c"]["size"] <= 40:
+        raise vf.ToolError("unexpected counterexamples %s" % key(ce))
+    # (M) intended decoder + (G) every class on the implementation
+    g, mc, inits = vf.collect_graph("MC_SockSample", "Gen_SockSample.cfg", workers=8, timeout=1500)
+    if mc.violated:
+        raise vf.ToolError("intended sample decoder violates %s at design level:\n%s" % (mc.violated, mc.error_trace[:3000]))
+    out.add("states", mc.distinct)
+    out.add("transitions", mc.generated)
+    recs = [e[2] for e in g.edges]
+    if not any(r["out"]["accepted"] for r in recs) or not any(not r["out"]["accepted"] for r in recs):
+        raise vf.ToolError("vacuous class enumeration")
+    rng = random.Random(seed)
+    order = list(range(len(recs)))
+    rng.shuffle(order)
+    rows = [{"id": i, "act": recs[i]["act"], "out": recs[i]["out"]} for i in order]
+    wd = vf.workdir("SockSample")
+    wf, rf = os.path.join(wd, "classes.ndjson"), os.path.join(wd, "results.ndjson")
+    vf.write_ndjson(wf, rows)
+    vf.run_harness("ntpd", SOCK_TEST, {"mode": "replay", "input": wf, "output": rf, "seed": seed})
+    res = {r["id"]: r for r in vf.read_ndjson(rf)}
+    if len(res) != len(rows):
+        raise vf.ToolError("harness returned %d results for %d classes" % (len(res), len(rows)))
+    confirmed = 0
+    for i, rec in enumerate(recs):
+        r = res[i]
+        fields = set(r["fields"])
+        if not fields:
+            confirmed += 1
+            continue
+        a, c = rec["act"], rec["act"]["c"]
+        cone = set(rec["cones"]["C40"])
+        detail = {"how": "replay", "class": a, "expected": rec["out"], "observed": r["observed"], "panic": r.get("panic"), "differing": sorted(fields)}
+        if not (fields & cone):
+            out.divergences.append(detail)
+            out.notes.append("divergence outside C40's cone: %s %s" % (sock_sig(a), sorted(fields)))
+            continue
+        obs = r["observed"] or {}
+        explained = None
+        if rec["dev"]:
+            nonfinite = c["off"] in NONFINITE
+            if nonfinite:
+                # as coded: accepted; with debug assertions the conversion of the accepted sample panics inside the task
+                if (a["path"] == "direct" and obs.get("result") == "Ok") or (a["path"] == "task" and (r.get("panic") == "SockSourceTask panicked" or obs.get("accepted") is True)):
+                    explained = SIG_F10
+            elif c["size"] > 40 and a["path"] == "task" and obs.get("accepted") is True and not r.get("panic"):
+                explained = SIG_OVERSIZE
+        if explained:
+            out.add("classes_deviating_as_the_as_coded_decoder_predicts", 1)
+            out.violation(explained, detail)
+            if explained == SIG_F10:
+                out.sample({"finding": "F-10", "class": sock_sig(a), "observed": obs, "panic": r.get("panic")}, cap=3)
+        else:
+            out.violation("SockSample:%s:%s" % (sock_sig(a), ",".join(sorted(fields & cone))), detail)
+    out.add("model_transitions_constrained_by_property", len(recs))
+    out.add("model_transitions_confirmed_on_impl", confirmed)
+    out.add("replayed_steps", len(recs))
+    out.add("traces_validated_against_impl", 0)
+    out.sample({"class": sock_sig(recs[0]["act"]), "expected": recs[0]["out"], "observed": res[0]["observed"]})
+
+
+PROPS.append("C40")
+_RUN["C40"] = ("model_checking", run_c40)
+MANIFEST["C40"] = dict(
+    level="model_checking", engine="tlc+replay", design_ref="6.11, 7 (daemon task group), 9 (F-10)",
+    technique="TLA+ decoder of the SOCK sample (spec/SockSample.tla) in an intended and an as-coded variant, checked by TLC over the class "
+              "grammar; every class concretised into bytes and run through deserialize_sample and through the real SockSourceTask over a "
+              "unix datagram socket with a recording controller",
+    text="accept <=> size = 40 and magic ok and pulse = 0 and offset finite, over 6 sizes x 3 magics x 4 pulse values x 9 offset classes "
+         "(incl. NaN, +-inf, subnormal, -0.0, huge) x 5 leap values on both paths; rejected datagrams produce no measurement and no crash.",
+    note="class grammar with one representative per class; observed as compiled for tests (debug assertions); value fidelity of the "
+         "measurement (offset, leap) compared but not part of the property's cone")
+
+
+# --------------------------------------------------------------------------------------------
 def run(prop, tier, seed):
     level, fn = _RUN[prop]
     out = vf.Outcome(prop, tier, seed, level)
